@@ -29,6 +29,8 @@ class Report:
     def finish(self):
         os.makedirs(EVID, exist_ok=True)
         cov = self.coverage
+        if isinstance(cov.get('samples'), list):   # evidence stays small: a sample that carries a long input is dropped, not truncated
+            cov['samples'] = [x for x in cov['samples'] if len(json.dumps(x)) < 6000][:12] or [{'note': 'samples omitted (too large)'}]
         ev = {'property_id': self.pid, 'tier': self.tier, 'seed': SEED, 'level': self.level, 'coverage': cov,
               'assumptions': self.assumptions, 'wall_s': round(time.time() - self.t0, 2), 'violations': len(self.violations)}
         if self.known_hits: ev['known_findings_seen'] = self.known_hits
@@ -356,7 +358,7 @@ def run_rx(pid, tier, rep, deadline_s):
         for k, v in m['counters'].items(): tot['counters'][k] = tot['counters'].get(k, 0) + v
         for k, v in m['violation_counts'].items(): tot['violation_counts'][k] = tot['violation_counts'].get(k, 0) + v
         tot['violations'] += [v for v in m['violations'] if v['prop'] == pid]
-        tot['samples'] += m['samples'].get(pid, []); tot['outcomes'] |= m['outcomes'].get(pid, set()); tot['crashes'] += m['crashes']
+        tot['samples'] += [x for x in m['samples'].get(pid, []) if len(json.dumps(x)) < 2000]; tot['outcomes'] |= m['outcomes'].get(pid, set()); tot['crashes'] += m['crashes']
     c = tot['counters']
     emit = os.environ.get('VERIF_EMIT_KNOWN')
     unlisted = {}
